@@ -59,10 +59,17 @@ def run(chk):
         sv = saves[0]
         Tm = flow.Terms(p, mc)
         ok_edges, other_edges = flow.success_edges(p, mc, flow.await_pred(sv), Tm)
-        if chk.require("R1 save is the last fallible step", "R1|make_credential|save-try", bool(ok_edges), where(mc, sv.call_bb), "save_credential's result is never tested for success"):
+        forwarded = False
+        if not ok_edges:
+            # not tested but handed on: `save(..).await.map(|()| response)` — Ok is returned exactly when the save succeeded
+            okf, witf, _e1, _e2 = flow.failure_is_error(p, mc, flow.await_pred(sv), Tm, norm=N.norm)
+            forwarded = bool(okf) and witf.startswith("forwarded")
+        if chk.require("R1 save is the last fallible step", "R1|make_credential|save-try", bool(ok_edges) or forwarded, where(mc, sv.call_bb), "save_credential's result is never tested for success"):
             after = set()
             for sb, sc in ok_edges:
                 after |= mc.reachable(sc, follow_yield_drop=False)
+            if forwarded and sv.ready_bb is not None:
+                after = mc.reachable(sv.ready_bb, follow_yield_drop=False)
             errs = [s for s in flow.outcome_sites(mc) if s["bb"] in after and s["path"] == () and s["kind"] in ("Err", "residual")]
             # any further test of a fallible value after the save succeeded (a `?`, a match on a Result/Option with an exit)
             tests = []
@@ -91,8 +98,12 @@ def run(chk):
                    "suspension points reachable after the save completed: %s" % ylds)
             chk.ob("R1 save is the last fallible step", "R1|make_credential|no-panic-after-save", not pan, where(mc, pan[0][0]) if pan else site,
                    "panic sites after the save: %s" % [short(str(x[1])) for x in pan])
-            chk.ob("R1 save is the last fallible step", "R1|make_credential|ok-after-save", len(oks) >= 1 and flow.cut_by_edges(mc, 0, flow.ok_sites(p, mc, Tm), ok_edges),
-                   site, "every Ok return passes the success edge of the save")
+            all_oks = flow.ok_sites(p, mc, Tm)
+            # (forwarded: the value-level check above already showed that every non-error leaf of the returned selection lies
+            # on the success side of the save's result; the return site itself is shared with the earlier error returns)
+            past = flow.cut_by_edges(mc, 0, all_oks, ok_edges) if ok_edges else forwarded
+            chk.ob("R1 save is the last fallible step", "R1|make_credential|ok-after-save", len(oks) >= 1 and past,
+                   site, "every Ok return passes the success edge of the save" if ok_edges else "the only value that can be Ok is the forwarded result of the save")
 
     # ---------------- R2
     for co, nm, pats in ((mc, "make_credential", MUT), (ga, "get_assertion", MUT + ("CredentialStore::find_credentials",)), (ur, "U2fApi::register", MUT)):
@@ -119,7 +130,7 @@ def run(chk):
         if co is None:
             continue
         found = []
-        for b in p.nested(co.path):
+        for b in p.nested_of(co):
             for bb, t in b.calls():
                 if names.call_is(t, *MUT):
                     found.append(core.callee_of(t).rsplit("::", 1)[-1])
